@@ -49,7 +49,7 @@ def sweep(ctx):
     import json
     path = _write_tables(ctx)
     stride = os.environ.get("VERIF_C20_STRIDE", "1")
-    rc, out = ctx["sh"]([ctx["exe"], "tool", "c20sweep", path, stride], cwd=ctx["root"], timeout=3000)
+    rc, out = ctx["sh"]([ctx["exe"], "tool", "c20sweep", path, stride, "16"], cwd=ctx["root"], timeout=3000)
     if rc != 0:
         return {"violations": [{"kind": "broken-correspondence", "what": "c20sweep tool failed: " + out[-500:], "case": {}}]}
     try:
@@ -103,7 +103,7 @@ PROP = {'gen': [],
                'decreases when luma increases by more than 1e-6 (observed: none; 3 luma values that are exact ties carry two '
                'levels); unchanged channels; no panic; any colour where the code\'s entry is not an exact optimum over the typed '
                'tables (= differs from the exact model) is reported as a model/implementation difference (observed: none). About '
-               '3500 sampled cases are parsed by the independent SGR interpreter and judged in Coq, where the verdict of the Rust '
+               '3300 sampled cases are parsed by the independent SGR interpreter and judged in Coq, where the verdict of the Rust '
                'tool on the same bytes must equal the Coq verdict.',
  'level_note': 'Trusted: Coq kernel + vm_compute; translate/enc_tables.py (CUBE, GREYS, grey levels as exact decimals; sRGB->linear '
                'table dumped through LinColor::from as exact values of the f32 results); harness/src/tool_c20sweep.rs, an UNPROVED '
@@ -114,7 +114,7 @@ PROP = {'gen': [],
  'technique': 'Coq proof (sorted-table nearest search, per-channel separability, mean argument for greys) + regenerated tables + '
               'model/implementation correspondence by the property with a stated tolerance',
  'design_ref': 'DESIGN.md 6.20',
- 'n_quick': 600,
+ 'n_quick': 300,
  'n_thorough': 200000,
  'shard': 100,
  'level': 'proof',
